@@ -354,6 +354,21 @@ func TestVerifCodecDNS(t *testing.T) {
 						labels = append(labels, lab)
 					}
 				}
+				// two adjacent labels fused into ONE label containing a literal '.' (or the escape character): it renders like the
+				// two-label name but is a different name - compression must not merge them
+				if len(labels) >= 2 && rng.Intn(3) == 0 {
+					j := rng.Intn(len(labels) - 1)
+					sep := []byte{'.'}
+					if rng.Intn(4) == 0 {
+						sep = []byte("\\.")
+					}
+					fused := append(append(append([]byte(nil), labels[j]...), sep...), labels[j+1]...)
+					if len(fused) <= 63 {
+						nl := append([][]byte{}, labels[:j]...)
+						nl = append(nl, fused)
+						labels = append(nl, labels[j+2:]...)
+					}
+				}
 				for k := rng.Intn(4); k > 0; k-- {
 					labels = append([][]byte{vLabel(rng, 1+rng.Intn([]int{3, 10, 63}[rng.Intn(3)]), rng.Intn(2) == 0)}, labels...)
 				}
